@@ -223,6 +223,23 @@ pub fn probe_iterators(rebuild: &dyn Fn() -> TabSut, s: &mut TabSut, stats: &Sta
                 return Err("table.iter().clone() does not continue from the same position".into());
             }
         }
+        // nth(k): within range, to the end, beyond; the skipped elements of an owning iterator are dropped, not leaked
+        if j <= n {
+            let r = n - j;
+            for k in [0usize, 1, r.saturating_sub(1), r, r + 3] {
+                crate::mapprobes::drive_nth(s.table.iter(), n, j, k, "table.iter()", &cv, &full)?;
+                crate::mapprobes::drive_nth(s.table.iter_mut(), n, j, k, "table.iter_mut()", &cm, &full)?;
+                let mut t = rebuild();
+                let tb = std::mem::take(&mut t.table);
+                crate::mapprobes::drive_nth(tb.into_iter(), n, j, k, "table.into_iter()", &co, &full)?;
+                t.finish().map_err(|m| format!("after table.into_iter() with nth({k}): {m}"))?;
+                let mut t = rebuild();
+                crate::mapprobes::drive_nth(t.table.drain(), n, j, k, "table.drain()", &co, &full)?;
+                t.model.clear();
+                t.finish().map_err(|m| format!("after table.drain() with nth({k}): {m}"))?;
+                count += 4;
+            }
+        }
         for tail in [Tail::Next, Tail::Fold] {
             {
                 let mut t = rebuild();
